@@ -80,6 +80,24 @@ def d_last(ts):
     return {"%d/%d" % (b, bt): b * 2}  # more musical beats than notated ones
 
 
+def alt_mus(b):
+    """a user-supplied number of musical beats that differs from the default of numerator b (any b >= 1)"""
+    if b in ALT_MUS:
+        return ALT_MUS[b]
+    # not a divisor of b: the stretch is scaled by a non-trivial fraction, and the value cannot coincide
+    # with a grouping in twos or threes
+    return 2 if b == 1 else b - 1
+
+
+def meter_history(ts, b, bt):
+    """history of the meter-alphabet sub-space: default musical beats (values the TimeSignature objects got
+    when they were created), user values for every signature of the part, back to the defaults through
+    set_musical_beat_per_ts({}) while musical beats stay enabled (values recomputed from the default table),
+    notated beats, musical beats with a user value for the meter under test only"""
+    d_user = {"%d/%d" % (x[1], x[2]): alt_mus(x[1]) for x in ts}
+    return [["M", {}], ["S", d_user], ["S", {}], ["N"], ["M", {"%d/%d" % (b, bt): alt_mus(b)}]]
+
+
 # the history evaluated on every structural case of the big sub-spaces: default musical beats, user dict
 # for all signatures, back to notated beats, user dict for one signature (the others must be back at their
 # defaults).  Every other history (up to a depth) is enumerated in the beat-mode-histories sub-space.
@@ -753,8 +771,50 @@ def gen_edits(scope):
                 yield dict(base, edits=[e1, e2], hist=hist, hid="e%r" % ([e1, e2],))
 
 
+def gen_meters(scope):
+    """the meter alphabet: every numerator 1..N x every beat type, alone and next to a simple / a compound
+    signature (change at every position), first measure of every length; the numerators outside
+    {6, 9, 12} must keep their notated number of beats as the default number of musical beats"""
+    L = 6
+    if scope == "core":
+        nums, bts_a, bts_b = range(1, 25), (2, 4, 8, 16), (4, 8)
+        t0s_b = (0,)
+        tabs_a = ([[0, 2]], [[0, 1], [3, 2]])
+        tabs_b = ([[0, 2]],)
+    else:
+        nums, bts_a, bts_b = range(1, 33), (1, 2, 4, 8, 16, 32), (1, 2, 4, 8, 16, 32)
+        t0s_b = (0, 2)
+        tabs_a = ([[0, 1]], [[0, 2]], [[0, 3]], [[0, 1], [3, 2]])
+        tabs_b = ([[0, 2]], [[0, 3], [2, 1]])
+    for b in nums:
+        # A: the meter alone
+        for bt in bts_a:
+            for t0 in (0, 2):
+                last = t0 + L
+                ts = [[t0, b, bt]]
+                for tab in tabs_a:
+                    divs = shift_divs(tab, t0, "ctor")
+                    for m in m_options(t0, last):
+                        yield dict(t0=t0, last=last, divs=divs, ts=ts, m=m, hist=meter_history(ts, b, bt), hid="A%d/%d" % (b, bt))
+        # B: after a simple meter / before a compound meter, change at every position (incl. the last point)
+        for bt in bts_b:
+            for t0 in t0s_b:
+                last = t0 + L
+                for tab in tabs_b:
+                    divs = shift_divs(tab, t0, "ctor")
+                    for p in range(t0 + 1, last + 1):
+                        for ts in ([[t0, 4, 4], [p, b, bt]], [[t0, b, bt], [p, 6, 8]]):
+                            if ts[0][1:] == ts[1][1:]:
+                                continue
+                            ms = (None, [t0, t0 + 1], [t0, last]) if scope == "core" else \
+                                (None, [t0, t0 + 1], [t0, t0 + 3], [t0, last])
+                            for m in ms:
+                                yield dict(t0=t0, last=last, divs=divs, ts=ts, m=m, hist=meter_history(ts, b, bt), hid="A%d/%d" % (b, bt))
+
+
 GENS = [("quarter-tables", gen_quarter), ("signature-tables", gen_ts), ("mixed-changes", gen_mixed),
-        ("beat-mode-histories", gen_modes), ("edited-parts", gen_edits), ("edge-shapes", gen_edge)]
+        ("beat-mode-histories", gen_modes), ("edited-parts", gen_edits), ("edge-shapes", gen_edge),
+        ("meter-alphabet", gen_meters)]
 NBLOCKS = 24
 
 BOUNDS = {
@@ -774,6 +834,11 @@ BOUNDS = {
     "edge-shapes": "single-point and two-point parts, no signature, late first signature, measure not at the first "
                    "point, quarter changes before/at the first and at/after the last point, long bars with every "
                    "pickup length",
+    "meter-alphabet": "every time signature numerator 1..N x beat type, (A) alone: first point 0|2, length 6, constant "
+                      "divisions or one quarter change, first measure none/every end; (B) after 4/4 or before 6/8 with "
+                      "the change at every position (incl. the last point), first measure none/1 division/whole part; "
+                      "5-step beat-mode history: default musical beats, user value for every signature, defaults again "
+                      "via set_musical_beat_per_ts({}), notated, user value for the meter under test only",
 }
 CORE_TXT = {
     "quarter-tables": "core: divisions {1,2,3}, meters 4/4 6/8 5/8 3/2, first point 2 only with the table set at the first point",
@@ -782,6 +847,8 @@ CORE_TXT = {
     "beat-mode-histories": "core: depth 3 on the 24 structures with first point 0",
     "edited-parts": "core: every single edit on every base; every pair over a reduced alphabet on 4 bases",
     "edge-shapes": "core: bars up to 14 divisions",
+    "meter-alphabet": "core: numerators 1..24; (A) beat types 2 4 8 16, divisions 2 or 1->2; (B) beat types 4 8, first "
+                      "point 0, divisions 2",
 }
 FULL_TXT = {
     "quarter-tables": "divisions {1,2,3,4,6}, all 10 meters, plus 3 changes (t0=0, 3 meters, 4 measures)",
@@ -790,6 +857,8 @@ FULL_TXT = {
     "beat-mode-histories": "depth 4 on all 48 structures",
     "edited-parts": "every single edit and every pair of edits over the full alphabet on every base",
     "edge-shapes": "bars up to 36 divisions",
+    "meter-alphabet": "numerators 1..32, beat types 1 2 4 8 16 32; (A) divisions 1, 2, 3 or 1->2; (B) first point 0|2, "
+                      "divisions 2 or 3->1, first measure also 3 divisions",
 }
 
 
